@@ -22,7 +22,6 @@ theorem setStatic_recOk {rank R X w t} (hb : Base rank R X w) (hex : existsF w t
     · exact o.chLe ch h
     · cases h; exact Nat.le_refl _
   · exact o.ckLe
-  · exact o.noCsum
   · exact fun _ => trivial
   · intro e; subst e; rw [hb.fs0] at hn; cases hn
   · intro _; rw [setStatic_changed]
@@ -51,7 +50,7 @@ theorem setStatic_spec {rank R X w t b po} (hi : Inv rank R X w) (hex : existsF 
     fun w0 h => h.setRec (by simp)
   by_cases hg : Good w R t
   · have hrc := hg.recCur hi
-    rw [setStatic_cur hrc (hgg hg) (hi.base.noOvr t)]
+    rw [setStatic_cur hrc (hgg hg) (hi.base.noOvr t) (hi.base.noCsum t)]
     have e := WEqv.setRec_self w t
     exact ⟨e.inv hi, (e.good R t).2 hg, e.toBExt, fun h => h.eqv e⟩
   · have off := OffT.setRec w t (setStatic w t (w.recs t) R)
@@ -175,7 +174,7 @@ theorem setStatic_flds {a b : Rec} (h : Flds a b) (w : World) (t R : Nat) :
   · simp [h.checked]
   · rw [setStatic_changed, setStatic_changed, h.stamp, h.changed]
   · simp
-  · simp [h.csum]
+  · simp
 
 theorem setFailed_flds {a b : Rec} (h : Flds a b) (w : World) (t R : Nat) :
     Flds (setFailed w t a R) (setFailed w t b R) := by
